@@ -142,7 +142,7 @@ def run(ck):
                                         if c2.get('m') in ('push', 'push_back') and (H.root_local(c2['recv']) or {}).get('hid') == (v or {}).get('hid'):
                                             r2 = H.root_local(c2['args'][0])
                                             k2 = bs.get(r2['hid'], {}).get('kind') if r2 is not None else None
-                                            if k2 != 'arm':
+                                            if k2 not in ('arm', 'letcond'):     # taken out of an existing id by a pattern (match arm or if-let)
                                                 fills_ok = False
                                     popped_ok = fills_ok
                     ok = normalised or handed_in or popped_ok
